@@ -588,6 +588,9 @@ pub struct HistCfg {
     /// run cleanup only on tables that have no branches / clones (cross-reference effects of
     /// cleanup are C09's subject)
     pub cleanup_isolated_only: bool,
+    /// `restore()` through a handle on a branch commits through `checkout_version(read_version)`,
+    /// which resolves against main: it is only exercised where that is the subject (C09)
+    pub restore_on_branches: bool,
 }
 
 impl HistCfg {
@@ -605,6 +608,7 @@ impl HistCfg {
             n_tables: 1,
             allow_refs: true,
             cleanup_isolated_only: true,
+            restore_on_branches: false,
         }
     }
     pub fn describe(&self) -> String {
@@ -993,6 +997,11 @@ impl Hist {
                     lin.removed.insert(v, s);
                     rec.removed_versions.push((loc.clone(), v));
                 }
+            }
+            let gone_unreadable: Vec<u64> = lin.unreadable.keys().filter(|v| !listed.contains(v)).copied().collect();
+            for v in gone_unreadable {
+                lin.unreadable.remove(&v);
+                rec.removed_versions.push((loc.clone(), v));
             }
             let latest = lin.head.manifest().version;
             for v in listed {
@@ -1528,6 +1537,9 @@ impl Hist {
     }
 
     async fn op_restore(&mut self, loc: &Loc, desc: &mut Value) -> (Outcome, Extra) {
+        if loc.branch.is_some() && !self.cfg.restore_on_branches {
+            return (Outcome::Skipped, Extra::None);
+        }
         let lin = self.lin.get(loc).unwrap();
         let latest = lin.latest();
         let cands: Vec<u64> = lin.snaps.keys().copied().filter(|v| *v != latest).collect();
@@ -1740,6 +1752,16 @@ impl Hist {
         )
     }
 
+    pub async fn listed_versions(&self, loc: &Loc) -> Vec<(u64, DateTime<Utc>)> {
+        match self.lin.get(loc) {
+            Some(lin) => match lin.head.versions().await {
+                Ok(vs) => vs.iter().map(|v| (v.version, v.timestamp)).collect(),
+                Err(_) => lin.snaps.iter().map(|(v, s)| (*v, s.timestamp)).collect(),
+            },
+            None => vec![],
+        }
+    }
+
     /// no other lineage shares files with this one (no branches of its table, not a clone, not cloned)
     pub fn is_isolated(&self, loc: &Loc) -> bool {
         self.locs_of_table(&loc.table).len() == 1
@@ -1768,6 +1790,13 @@ impl Hist {
             take_snapshot(&ds, &raw).await
         };
         let new = crate::walker::guard(fut).await?;
+        // an object the manifest names is gone: that is "unreadable", not "different"
+        for (sig, detail) in &new.walk_problems {
+            if sig == "deletion-file-missing" {
+                let p = detail.rsplit("file ").next().unwrap_or("");
+                return Err(format!("deletion vector unreadable: Object at location {p} not found"));
+            }
+        }
         Ok(crate::snap::diff(old, &new))
     }
 
@@ -1824,7 +1853,11 @@ impl Hist {
         };
         let tagged = self.tagged_versions(&loc.table);
         let lin = self.lin.get_mut(loc).unwrap();
-        let before: Vec<(u64, DateTime<Utc>)> = lin.snaps.iter().map(|(v, s)| (*v, s.timestamp)).collect();
+        // everything that is listed, whether or not we could snapshot it
+        let before: Vec<(u64, DateTime<Utc>)> = match lin.head.versions().await {
+            Ok(vs) => vs.iter().map(|v| (v.version, v.timestamp)).collect(),
+            Err(_) => lin.snaps.iter().map(|(v, s)| (*v, s.timestamp)).collect(),
+        };
         let latest = lin.latest();
         let mut extra = Extra::Cleanup {
             loc: loc.clone(),
